@@ -98,8 +98,13 @@ def throttle_missing_bucket_probe():
             clock = [1000.0]
             starts = []
 
-            def sleep_func(x, clock=clock):
+            naps = [0]
+
+            def sleep_func(x, clock=clock, naps=naps):
                 clock[0] += x
+                naps[0] += 1
+                if naps[0] > 200:
+                    raise RuntimeError('still waiting after 200 sleeps')
 
             @diskcache.throttle(c, 2, 1, name='thr', expire=0.05 if how == 'expire' else None,
                                 time_func=lambda clock=clock: clock[0], sleep_func=sleep_func)
@@ -164,7 +169,9 @@ def throttle_case(seed, frac_count=None):
     def sleep_func(x):
         clock[0] += Fraction(x)
         sleeps[0] += 1
-        if sleeps[0] > 2000:
+        # one sleep of the delay the wrapper computed suffices (Lean: single_sleep_suffices / qsingle_sleep_suffices);
+        # a call that is still waiting after many sleeps is never let through
+        if sleeps[0] > (2000 if frac_count is not None else 40):
             raise NeverLetThrough()
     d = tempfile.mkdtemp(prefix='thr-', dir=scratch_root())
     env.rec.enabled = False
